@@ -65,7 +65,19 @@ def regexes():
     return _regexes
 
 
-def run_lines(lines, salt, via):
+def keyword_fragments(words_of_line, secret_indexes, reserved):
+    """Sensitive words that are parts of the line's own keywords (not secrets, not reserved words): with them listed,
+    the word stage rewrites keywords AFTER the secrets were recognised - it must not stop a form from being recognised."""
+    out = []
+    for i, w in enumerate(words_of_line):
+        core = "".join(ch for ch in w if ch.isalpha())
+        if i in secret_indexes or len(core) < 5 or w.lower() in reserved or core.lower() in reserved:
+            continue
+        out.append(core[:5] if len(core) > 6 else core[1:])
+    return sorted(set(out))
+
+
+def run_lines(lines, salt, via, words=None):
     """One run over the lines (shared lookup).  Returns (outputs or exception text, logs)."""
     def go():
         outs = []
@@ -75,7 +87,9 @@ def run_lines(lines, salt, via):
                 outs.append(SIR.replace_matching_item(regexes(), ln, lookup, salt))
         else:
             # "io": secrets only; "io-undo": secrets together with undoing IP anonymization (an option combination)
+            # "io-words": secrets together with sensitive words (an option combination)
             fa = AF.FileAnonymizer(anon_pwd=True, anon_ip=False, salt=salt or "u", undo_ip_anon=True) if via == "io-undo" \
+                else AF.FileAnonymizer(anon_pwd=True, anon_ip=False, salt=salt, sensitive_words=list(words)) if via == "io-words" and words \
                 else AF.FileAnonymizer(anon_pwd=True, anon_ip=False, salt=salt)
             for ln in lines:
                 buf = io.StringIO()
@@ -155,12 +169,19 @@ def forms_workload(ck, pid, tier, salts):
     for ai, al in enumerate(als):
         salt = salts[ai % len(salts)]
         # (io-undo also rewrites addresses, so it is used where only the paired outputs are compared)
-        via = ["io", "rmi", "rmi", "io-undo" if pid == "C07" else "io", "rmi", "rmi", "rmi", "rmi"][ai % 8]
+        via = ["io", "rmi", "rmi", "io-undo" if pid == "C07" else "io", "rmi", "io-words" if pid == "C07" else "rmi", "rmi", "rmi"][ai % 8]
         rf = rng(pid, "fill", ai)
         variants = []
+        frags = None
         for v in range(2 if pid == "C07" else 1):
             conc = G.concretize(al, rng(pid, "fill", ai), rng(pid, "sec", ai, v), reserved)
-            outs, logs = run_lines([conc["line"]], salt, via)
+            if pid == "C07" and ai % 16 in (6, 14):
+                # "any indentation": a very long run of blanks in front of the line does not hide it from the scan
+                pad = " " * (2100 if ai % 16 == 6 else 4200)
+                conc = dict(conc, line=pad + conc["line"], lead=pad + conc["lead"])
+            if frags is None:
+                frags = keyword_fragments(conc["words"], {x["index"] for x in conc["secrets"]}, {w.lower() for w in reserved})
+            outs, logs = run_lines([conc["line"]], salt, via, words=frags)
             variants.append((conc, outs, logs))
         ev = [{"ev": "run", "clauses": CLAUSES[pid]}]
         info = [None]                      # info[i] describes ev[i]
@@ -200,13 +221,21 @@ def sequences_workload(ck, pid, tier, als):
         same13 = si % 2 == 0 and trip[0]["cls"][0] == trip[2]["cls"][0] and trip[0]["slen"] == trip[2]["slen"]
         variants = []
         for v in range(2):
-            concs = [G.concretize(al, rng(pid, "seqfill", si, j), rng(pid, "seqsec", si, j, v), reserved) for j, al in enumerate(trip)]
+            concs, used = [], set()
+            for j, al in enumerate(trip):
+                # the same equality pattern in both variants: secrets of different lines are pairwise different
+                cj = G.concretize(al, rng(pid, "seqfill", si, j), rng(pid, "seqsec", si, j, v), reserved | used)
+                used |= {x["value"] for x in cj["secrets"]}
+                concs.append(cj)
             lines = [c["line"] for c in concs]
             if same13:
                 # line 3 carries the same secret value as line 1 (equality pattern kept in both variants)
                 old = concs[2]["secrets"][0]["value"]
                 new = concs[0]["secrets"][0]["value"]
-                lines[2] = lines[2].replace(old, new)
+                w3 = list(concs[2]["words"])
+                k3 = concs[2]["secrets"][0]["index"]
+                w3[k3] = w3[k3].replace(old, new, 1)
+                lines[2] = concs[2]["lead"] + " ".join(w3)
             outs, logs = run_lines(lines, ["TESTSALT", "", "Qx"][si % 3], "rmi" if si % 2 else "io")
             variants.append((lines, outs, logs))
         ev = [{"ev": "run", "clauses": CLAUSES[pid]}]
@@ -254,6 +283,11 @@ def judge(ck, pid, traces, meta, label):
                 what = "%s: clause %s: %s" % (label, clause, m["info"][k] if k < len(m["info"]) else "")
             else:
                 key = "%s clause=%s %s" % (label, clause, m.get("key", ""))
+                if label == "long-run" and clause == "ClassKept" and e.get("cls") in ("numeric", "hex") and "$9$" not in e.get("orig", ""):
+                    # finding D14 inside a long run: the clear all-digit / hexadecimal value was first seen in the run as a $9$ string
+                    first = next((x for x in traces[ti][:k] if x.get("ev") == "sec" and x.get("key") == e.get("key")), None)
+                    if first is not None and "$9$" in first.get("orig", ""):
+                        key = "long-run clause=ClassKept history-class=%s-secret-first-seen-as-$9$-then-clear" % e["cls"]
                 what = "%s: clause %s: %s" % (label, clause, json.dumps({a: e[a] for a in e if a not in ("ctxin", "ctxout")})[:400])
                 if "lines" in m:
                     what += " lines=%r" % (m["lines"],)
@@ -353,6 +387,7 @@ def long_runs(ck, pid, tier):
         for v in [p for p in pool if p.startswith("$9$")][:3]:
             pt = G.j9_decode(v)
             pool.append(G.j9_encode(pt, r.choice(G.ALPHA)))
+            pool.append(G.j9_encode(pt, "-"))                 # every character of the alphabet can start / occur in an encoding
             pool.append(pt)
         # plaintexts with characters >= 0x80 have perfectly valid $9$ encodings too
         for pt in ("p\u00e4ssw\u00f6rd", "cl\u00e9-secr\u00e8te"):
@@ -362,9 +397,19 @@ def long_runs(ck, pid, tier):
         for i in range(200 if thorough else 80):
             v = r.choice(pool)
             hd, tl = G.WRAP[r.choice(list(G.WRAP))]
-            lines.append(r.choice(LINE_FORMS).format(hd + v + tl))
+            form = r.choice(LINE_FORMS)
+            if v.startswith(("$9$", "$1$")) and i % 3 == 0:
+                form = ["my hash is {}", "description backup of {}", "chap-secret {}"][i // 3 % 3]     # no keyword: the lone hash-shaped token form
+            lines.append(form.format(hd + v + tl))
             vals.append((v, hd, tl))
-        outs, logs = run_lines(lines, ["s%d" % run, ""][run % 2], "io" if run % 2 else "rmi")
+        if run % 3 == 2:
+            # secrets together with sensitive words that are PARTS of the clear-text secrets: a secret is recognised
+            # (and filed under its own text) before any word inside it is rewritten
+            pts = [G.secret_key(p) for p in pool if G.classify(p)[0] in ("text", "juniper9")]
+            frs = sorted({pt[1:6] for pt in pts if len(pt) >= 7 and pt[1:6].isalnum() and not pt[1:6].isdigit()})
+            outs, logs = run_lines(lines, "s%d" % run, "io-words", words=frs)
+        else:
+            outs, logs = run_lines(lines, ["s%d" % run, ""][run % 2], "io" if run % 2 else "rmi")
         ev = [{"ev": "run", "clauses": CLAUSES[pid]}]
         if isinstance(outs, str):
             ev.append({"ev": "exc", "what": outs})
